@@ -151,20 +151,22 @@ class StateGuard(object):
         snap["sys.getrecursionlimit"] = sys.getrecursionlimit()
         for cname in ("DefaultContext", "BasicContext", "ExtendedContext"):
             snap["decimal." + cname] = repr(ctx_tuple(getattr(decimal, cname)))
-        # further process-wide settings a calculator library has no business touching
-        import logging
-        import threading
+        # further process-wide settings a calculator library has no business touching (shared with the
+        # import-effects check of the clean room)
+        from .cleanroom import process_settings
 
-        snap["logging.root"] = repr((logging.root.level, [type(h).__name__ for h in logging.root.handlers], logging.root.disabled,
-                                     logging.root.manager.disable))
-        snap["sys.excepthook"] = repr((id(sys.excepthook), id(sys.displayhook), id(getattr(threading, "excepthook", None))))
+        snap.update(process_settings())
         snap["sys.stdout/stderr identity"] = repr((id(sys.stdout), id(sys.stderr), id(sys.stdin)))
-        snap["sys.settings"] = repr((sys.getswitchinterval(), sys.flags.dev_mode, sys.dont_write_bytecode))
         return snap
 
     def rebase_streams(self):
         """The simulated stdio has just been installed: that identity is the one to preserve."""
         self.base["sys.stdout/stderr identity"] = repr((id(sys.stdout), id(sys.stderr), id(sys.stdin)))
+        # the run executes in a forked child, and the random module re-seeds its global generator in
+        # every forked child (os.register_at_fork): the child's state at this point is the one to preserve
+        import random
+
+        self.base["random.getstate"] = repr(hash(random.getstate()))
 
     def take_caches(self):
         out = {}
